@@ -1,1 +1,362 @@
-// placeholder
+//! Reference models written from the documentation / property text, not from the code:
+//! the simple-point view (C05) and colour/intensity normalisation (C13).
+
+use crate::obs::Opts;
+use crate::readback::model_f64;
+use e57::*;
+
+#[derive(Clone, Debug, PartialEq)]
+pub enum MC {
+    Valid([f64; 3]),
+    Direction([f64; 3]),
+    Invalid,
+}
+#[derive(Clone, Debug, PartialEq)]
+pub enum MS {
+    Valid([f64; 3]), // range, azimuth, elevation
+    Direction([f64; 2]),
+    Invalid,
+}
+
+#[derive(Clone, Debug)]
+pub struct MPoint {
+    pub cart: MC,
+    pub sph: MS,
+    /// None = absent; Some(None) = present but numeric value left to C13 (normalised); Some(Some(v)) exact
+    pub color: Option<[Option<f32>; 3]>,
+    pub intensity: Option<Option<f32>>,
+    pub color_from_intensity: bool,
+    pub row: i64,
+    pub column: i64,
+    /// which branches produced the coordinates (coverage + tolerance selection)
+    pub cart_derived: bool,
+    pub sph_derived: bool,
+    pub posed: bool,
+}
+
+fn idx(p: &[Record], n: RecordName) -> Option<usize> {
+    p.iter().position(|r| r.name == n)
+}
+
+fn int_of(v: &RecordValue) -> Option<i64> {
+    match v {
+        RecordValue::Integer(i) => Some(*i),
+        _ => None,
+    }
+}
+
+pub fn quat_rotate(q: &Quaternion, v: [f64; 3]) -> [f64; 3] {
+    // q * (0,v) * conj(q) with Hamilton products (independent of the 3x3 matrix form)
+    let mul = |a: [f64; 4], b: [f64; 4]| -> [f64; 4] {
+        [
+            a[0] * b[0] - a[1] * b[1] - a[2] * b[2] - a[3] * b[3],
+            a[0] * b[1] + a[1] * b[0] + a[2] * b[3] - a[3] * b[2],
+            a[0] * b[2] - a[1] * b[3] + a[2] * b[0] + a[3] * b[1],
+            a[0] * b[3] + a[1] * b[2] - a[2] * b[1] + a[3] * b[0],
+        ]
+    };
+    let qq = [q.w, q.x, q.y, q.z];
+    let qc = [q.w, -q.x, -q.y, -q.z];
+    let r = mul(mul(qq, [0.0, v[0], v[1], v[2]]), qc);
+    [r[1], r[2], r[3]]
+}
+
+/// Err(()) = the simple iterator is allowed (required) to fail on this point:
+/// a stored invalid-state value lies outside its documented set.
+pub fn simple_point(raw: &[RecordValue], pc: &PointCloud, o: Opts) -> std::result::Result<MPoint, &'static str> {
+    use RecordName::*;
+    let p = &pc.prototype;
+    let f = |i: usize| model_f64(&raw[i], &p[i].data_type);
+    let cart_idx = match (idx(p, CartesianX), idx(p, CartesianY), idx(p, CartesianZ)) {
+        (Some(a), Some(b), Some(c)) => Some((a, b, c)),
+        _ => None,
+    };
+    let sph_idx = match (idx(p, SphericalRange), idx(p, SphericalAzimuth), idx(p, SphericalElevation)) {
+        (Some(a), Some(b), Some(c)) => Some((a, b, c)),
+        _ => None,
+    };
+    let state = |flag: Option<usize>, present: bool, absent_default: i64| -> std::result::Result<i64, &'static str> {
+        match flag {
+            Some(i) => int_of(&raw[i]).ok_or("state-not-integer"),
+            None => Ok(if present { 0 } else { absent_default }),
+        }
+    };
+    let cs = state(idx(p, CartesianInvalidState), cart_idx.is_some(), 2)?;
+    let mut cart = match cart_idx {
+        Some((a, b, c)) => match cs {
+            0 => MC::Valid([f(a), f(b), f(c)]),
+            1 => MC::Direction([f(a), f(b), f(c)]),
+            2 => MC::Invalid,
+            _ => return Err("cartesian-state-out-of-set"),
+        },
+        None => MC::Invalid,
+    };
+    let ss = state(idx(p, SphericalInvalidState), sph_idx.is_some(), 2)?;
+    let mut sph = match sph_idx {
+        Some((a, b, c)) => match ss {
+            0 => MS::Valid([f(a), f(b), f(c)]),
+            1 => MS::Direction([f(b), f(c)]),
+            2 => MS::Invalid,
+            _ => return Err("spherical-state-out-of-set"),
+        },
+        None => MS::Invalid,
+    };
+    let col_idx = match (idx(p, ColorRed), idx(p, ColorGreen), idx(p, ColorBlue)) {
+        (Some(a), Some(b), Some(c)) => Some((a, b, c)),
+        _ => None,
+    };
+    let cis = state(idx(p, IsColorInvalid), col_idx.is_some(), 1)?;
+    let mut color = match col_idx {
+        Some((a, b, c)) => match cis {
+            0 => {
+                if o.nc() {
+                    Some([None, None, None])
+                } else {
+                    Some([Some(f(a) as f32), Some(f(b) as f32), Some(f(c) as f32)])
+                }
+            }
+            1 => None,
+            _ => return Err("color-state-out-of-set"),
+        },
+        None => None,
+    };
+    let int_idx = idx(p, Intensity);
+    let iis = state(idx(p, IsIntensityInvalid), int_idx.is_some(), 1)?;
+    let intensity = match int_idx {
+        Some(i) => match iis {
+            0 => {
+                if o.ni() {
+                    Some(None)
+                } else {
+                    Some(Some(f(i) as f32))
+                }
+            }
+            1 => None,
+            _ => return Err("intensity-state-out-of-set"),
+        },
+        None => None,
+    };
+    let row = match idx(p, RowIndex) {
+        Some(i) => int_of(&raw[i]).ok_or("row-not-integer")?,
+        None => -1,
+    };
+    let column = match idx(p, ColumnIndex) {
+        Some(i) => int_of(&raw[i]).ok_or("column-not-integer")?,
+        None => -1,
+    };
+    let mut cart_derived = false;
+    let mut sph_derived = false;
+    if o.s2c() {
+        if !matches!(cart, MC::Valid(_)) {
+            if let MS::Valid([r, az, el]) = sph {
+                cart = MC::Valid([r * el.cos() * az.cos(), r * el.cos() * az.sin(), r * el.sin()]);
+                cart_derived = true;
+            } else if matches!(cart, MC::Invalid) {
+                if let MS::Direction([az, el]) = sph {
+                    cart = MC::Direction([el.cos() * az.cos(), el.cos() * az.sin(), el.sin()]);
+                    cart_derived = true;
+                }
+            }
+        }
+    }
+    if o.c2s() {
+        if !matches!(sph, MS::Valid(_)) {
+            if let MC::Valid([x, y, z]) = cart {
+                let r = (x * x + y * y + z * z).sqrt();
+                sph = MS::Valid([r, y.atan2(x), (z / r).asin()]);
+                sph_derived = true;
+            } else if matches!(sph, MS::Invalid) {
+                if let MC::Direction([x, y, z]) = cart {
+                    let r = (x * x + y * y + z * z).sqrt();
+                    sph = MS::Direction([y.atan2(x), (z / r).asin()]);
+                    sph_derived = true;
+                }
+            }
+        }
+    }
+    let mut color_from_intensity = false;
+    if o.i2c() && color.is_none() {
+        if let Some(i) = intensity {
+            color = Some([i, i, i]);
+            color_from_intensity = true;
+        }
+    }
+    let mut posed = false;
+    if o.pose() {
+        if let (Some(t), MC::Valid(v)) = (&pc.transform, &cart) {
+            let r = quat_rotate(&t.rotation, *v);
+            cart = MC::Valid([r[0] + t.translation.x, r[1] + t.translation.y, r[2] + t.translation.z]);
+            posed = true;
+        }
+    }
+    Ok(MPoint { cart, sph, color, intensity, color_from_intensity, row, column, cart_derived, sph_derived, posed })
+}
+
+pub fn close(a: f64, b: f64, tol: f64) -> bool {
+    if a.is_nan() || b.is_nan() {
+        return a.is_nan() && b.is_nan();
+    }
+    if a.is_infinite() || b.is_infinite() {
+        return a == b;
+    }
+    (a - b).abs() <= tol * 1f64.max(a.abs()).max(b.abs())
+}
+
+/// Compare model and implementation point. Returns None if equal, Some(aspect) otherwise.
+pub fn compare_point(m: &MPoint, g: &Point, scale_hint: f64) -> Option<String> {
+    let tol_c = if m.posed { 1e-9 } else if m.cart_derived { 1e-12 } else { 0.0 };
+    // after a pose the absolute error scales with the magnitude of the un-posed vector
+    let abs_extra = if m.posed { 1e-9 * scale_hint } else { 0.0 };
+    let cmp3 = |a: &[f64; 3], b: [f64; 3], tol: f64, extra: f64| -> bool {
+        // numeric equality (so that -0.0 == 0.0: an identity pose may legitimately turn -0.0 into 0.0)
+        (0..3).all(|i| if tol == 0.0 && extra == 0.0 { a[i] == b[i] || (a[i].is_nan() && b[i].is_nan()) } else { close(a[i], b[i], tol) || (a[i] - b[i]).abs() <= extra })
+    };
+    match (&m.cart, &g.cartesian) {
+        (MC::Valid(a), CartesianCoordinate::Valid { x, y, z }) => {
+            if !cmp3(a, [*x, *y, *z], tol_c, abs_extra) {
+                return Some(format!("cartesian-value(posed={},derived={}) model {:?} impl {:?}", m.posed, m.cart_derived, a, [x, y, z]));
+            }
+        }
+        (MC::Direction(a), CartesianCoordinate::Direction { x, y, z }) => {
+            let t = if m.cart_derived { 1e-12 } else { 0.0 };
+            if !cmp3(a, [*x, *y, *z], t, 0.0) {
+                return Some(format!("cartesian-direction model {:?} impl {:?}", a, [x, y, z]));
+            }
+        }
+        (MC::Invalid, CartesianCoordinate::Invalid) => {}
+        (a, b) => return Some(format!("cartesian-validity model {:?} impl {:?}", a, b)),
+    }
+    let tol_s = if m.sph_derived { 1e-12 } else { 0.0 };
+    match (&m.sph, &g.spherical) {
+        (MS::Valid(a), SphericalCoordinate::Valid { range, azimuth, elevation }) => {
+            if !cmp3(a, [*range, *azimuth, *elevation], tol_s, 0.0) {
+                return Some(format!("spherical-value(derived={}) model {:?} impl {:?}", m.sph_derived, a, [range, azimuth, elevation]));
+            }
+        }
+        (MS::Direction(a), SphericalCoordinate::Direction { azimuth, elevation }) => {
+            let ok = if tol_s == 0.0 {
+                (a[0].to_bits() == azimuth.to_bits() || (a[0].is_nan() && azimuth.is_nan())) && (a[1].to_bits() == elevation.to_bits() || (a[1].is_nan() && elevation.is_nan()))
+            } else {
+                close(a[0], *azimuth, tol_s) && close(a[1], *elevation, tol_s)
+            };
+            if !ok {
+                return Some(format!("spherical-direction model {:?} impl {:?}", a, [azimuth, elevation]));
+            }
+        }
+        (MS::Invalid, SphericalCoordinate::Invalid) => {}
+        (a, b) => return Some(format!("spherical-validity model {:?} impl {:?}", a, b)),
+    }
+    match (&m.color, &g.color) {
+        (None, None) => {}
+        (Some(mc), Some(gc)) => {
+            let gs = [gc.red, gc.green, gc.blue];
+            for i in 0..3 {
+                if let Some(v) = mc[i] {
+                    if v.to_bits() != gs[i].to_bits() && !(v.is_nan() && gs[i].is_nan()) {
+                        return Some(format!("color-value(from_intensity={}) model {:?} impl {:?}", m.color_from_intensity, mc, gs));
+                    }
+                }
+            }
+            if m.color_from_intensity {
+                // grey: all three equal the delivered intensity, whatever its normalisation
+                if let Some(i) = g.intensity {
+                    if !gs.iter().all(|c| c.to_bits() == i.to_bits() || (c.is_nan() && i.is_nan())) {
+                        return Some(format!("grey-not-intensity impl color {:?} intensity {:?}", gs, i));
+                    }
+                }
+            }
+        }
+        (a, b) => return Some(format!("color-presence(from_intensity={}) model {:?} impl {:?}", m.color_from_intensity, a.is_some(), b.is_some())),
+    }
+    match (&m.intensity, &g.intensity) {
+        (None, None) => {}
+        (Some(mi), Some(gi)) => {
+            if let Some(v) = mi {
+                if v.to_bits() != gi.to_bits() && !(v.is_nan() && gi.is_nan()) {
+                    return Some(format!("intensity-value model {:?} impl {:?}", v, gi));
+                }
+            }
+        }
+        (a, b) => return Some(format!("intensity-presence model {:?} impl {:?}", a.is_some(), b.is_some())),
+    }
+    if m.row != g.row {
+        return Some(format!("row model {} impl {}", m.row, g.row));
+    }
+    if m.column != g.column {
+        return Some(format!("column model {} impl {}", m.column, g.column));
+    }
+    None
+}
+
+// ------------------------------------------------------------------ C13 normalisation model
+
+/// real-valued (min,max) of a declared data type; None when the type gives no finite pair
+pub fn type_range(d: &RecordDataType) -> (f64, f64) {
+    match d {
+        RecordDataType::Single { min, max } => (min.unwrap_or(f32::MIN) as f64, max.unwrap_or(f32::MAX) as f64),
+        RecordDataType::Double { min, max } => (min.unwrap_or(f64::MIN), max.unwrap_or(f64::MAX)),
+        RecordDataType::ScaledInteger { min, max, scale, offset } => (*min as f64 * scale + offset, *max as f64 * scale + offset),
+        RecordDataType::Integer { min, max } => (*min as f64, *max as f64),
+    }
+}
+
+/// candidate ranges the statement allows for an attribute: the limits (when both given) and/or the type range.
+/// Returns (candidates, class) where class names the cell of the (type x limits) grid.
+pub fn candidate_ranges(d: &RecordDataType, lmin: &Option<RecordValue>, lmax: &Option<RecordValue>) -> (Vec<(f64, f64)>, &'static str) {
+    let tr = type_range(d);
+    let real = |v: &RecordValue| -> f64 {
+        match v {
+            RecordValue::Single(x) => *x as f64,
+            RecordValue::Double(x) => *x,
+            RecordValue::Integer(i) => *i as f64,
+            RecordValue::ScaledInteger(i) => match d {
+                RecordDataType::ScaledInteger { scale, offset, .. } => *i as f64 * scale + offset,
+                _ => *i as f64,
+            },
+        }
+    };
+    let variant = |v: &RecordValue| match v {
+        RecordValue::Single(_) => 0,
+        RecordValue::Double(_) => 1,
+        RecordValue::Integer(_) => 2,
+        RecordValue::ScaledInteger(_) => 3,
+    };
+    match (lmin, lmax) {
+        (Some(a), Some(b)) => {
+            let same = variant(a) == variant(b);
+            let matches_attr = matches!(
+                (d, a),
+                (RecordDataType::Single { .. }, RecordValue::Single(_)) | (RecordDataType::Double { .. }, RecordValue::Double(_)) | (RecordDataType::Integer { .. }, RecordValue::Integer(_)) | (RecordDataType::ScaledInteger { .. }, RecordValue::ScaledInteger(_))
+            );
+            if same && matches_attr {
+                (vec![(real(a), real(b))], "limits-complete-same-type")
+            } else if same {
+                // limits of one type that is not the attribute's type: the statement does not say how a
+                // scaled/unscaled mismatch is to be read, so either the limits or the type range is accepted
+                (vec![(real(a), real(b)), tr], "limits-complete-other-type")
+            } else {
+                (vec![(real(a), real(b)), tr], "limits-complete-mixed-type")
+            }
+        }
+        (None, None) => (vec![tr], "limits-absent"),
+        _ => (vec![tr], "limits-partial"),
+    }
+}
+
+/// clamp((v-min)/(max-min)) computed without intermediate overflow; degenerate -> 0
+pub fn norm_expected(v: f64, min: f64, max: f64) -> Option<f64> {
+    if !(min.is_finite() && max.is_finite()) || min > max {
+        return None; // not a range the statement defines
+    }
+    if min == max {
+        return Some(0.0);
+    }
+    let c = if v < min { min } else if v > max { max } else { v };
+    // halve everything first so that max-min cannot overflow
+    let num = c * 0.5 - min * 0.5;
+    let den = max * 0.5 - min * 0.5;
+    if den == 0.0 {
+        return Some(0.0);
+    }
+    Some((num / den).clamp(0.0, 1.0))
+}
